@@ -29,6 +29,10 @@ CHECKS = {
    text="An in-path attacker is a node of the simulation between two real gmtls endpoints. Enumerated family: for seed-chosen small GMSSL sessions, one simulated run per fault position - every bit of every protected record of both directions, every truncation length, extensions, drop, duplicate, adjacent swap - so the fault-position space of a session is swept completely (sessions are sampled by seed; evidence lists per session expected vs executed positions). Sampled family: 15 fault kinds (incl. replay, cross-direction and cross-connection injection, header rewrites, FIN before/inside records) on sessions with payloads up to 16 KiB, both GM suites and TLS suites. Oracle: prefix after every Read, exactly the plaintext of the records before the first affected one (independent decoder), sticky non-EOF error, fatal alert on the wire, IV/nonce/sequence audit.",
    note="Trusts reftls' record layer (written from the standards, cross-validated on every benign C06 session) for the expected per-record plaintext; TLS-suite sessions use the prefix+detection oracle only. CBC padding-length sweep with a reference sender is part of the scripted-peer stage.",
    technique="deterministic simulation with fault injection: attacker task on a simulated network flips/truncates/drops/duplicates/reorders/replays/injects protected records at seeded or enumerated positions; history oracle from an independent decoder; ddmin-minimised replay files"),
+ "C20": dict(level="exploration", design="5 (C20), 3.3",
+   text="Real gmsm code runs as tasks under a seeded cooperative scheduler that owns every interleaving at statement (~3800 inserted yield points), lock, once, atomic and network granularity (instrumented scratch copy). Six programs: one shared sm4 cipher.Block; package-level SM2/SM3/SM4/X.509/PKCS#7 operations incl. first use of the curve; LRU session cache; one CertPool; one established connection with concurrent readers, writers and Close; one server Config with simultaneous handshakes, ticket rotation and Clone. Oracles: equality with the same call run alone; porcupine linearizability (cache; connection as FIFO pipe with atomic writes); the Go race detector evaluated on the simulated interleaving - the hand-off baton between tasks is invisible to it, so a report is deterministic per seed; deadlock and panic.",
+   note="Sampling of schedules (random gaps and PCT), not enumeration. The race oracle inherits the detector's bounded shadow history (can miss, cannot invent). Statement-level yields only in the files listed in DESIGN 5/C20.",
+   technique="deterministic simulation: seeded cooperative scheduler over instrumented real code (statement/lock/atomic preemption), race detector as happens-before oracle under the simulated schedule, porcupine linearizability of recorded histories, ddmin-minimised replayable schedules"),
  "C19": dict(level="exploration", design="5 (C19)",
    text="Seeded simulation of the sources and sinks around the streaming PKCS#7 helpers: every Read/Write size and behaviour (short non-EOF read, 1-byte, (0,nil), data+EOF) is a choice; a separate fault family injects one source or sink error at a drawn offset. Oracle: reference padding model (exact equality fault-free; error surfaced and emitted bytes a prefix under an injected error).",
    note="Trusts the 6-line refpad model and stdlib AES/DES-CBC (used as the block mode so SM4 changes cannot raise C19 alarms).",
